@@ -10,7 +10,9 @@ RULE = ('structured lattice: ~70 anchor instants (range ends +-1ns, year ends, l
         '~60 durations (0, +-1ns .. +-146097d, TimeDelta MIN/MAX, distance to each range end +-1ns), all anchor pairs '
         'for differences, dates with ordinal 1/59/60/365/366 x day counts {0..3,364..367,146097,i32::MAX+-1,2^32,u64::MAX, '
         'distance to range end +-1}, 12 offsets for zone-aware values, iterators started within 25 days/weeks of both '
-        'range ends and mid-range with up to 5000 steps; plus seeded random instants/durations/day counts')
+        'range ends and mid-range with up to 5000 steps; compound-assignment / Duration-assign / reference-subtraction / FixedOffset-operand '
+        'forms on the same lattices (offsets 0,+-1s..+-23:59:59 and the exact distance to each range end), provided iterator adaptors '
+        '(count, last, len, rev, step_by 1..5000) within 30 steps and 10 years of both range ends; plus seeded random instants/durations/day counts')
 
 DAYNS = 86400 * G
 MIN_YEAR, MAX_YEAR = -262143, 262142
@@ -204,6 +206,110 @@ def std_args(x):
     return x // G, x % G
 
 
+OFF_ARGS = [0, 1, -1, 59, 60, 3600, -3600, 19800, -16200, 43200, -43200, 86398, 86399, -86399, -86398]
+
+
+def surface_cases(tier, rng, anc, dan):
+    for t in anc:
+        a = ndt_of_ns(t)
+        ds = durations_for(t)
+        for d in ds[::2] + ds[-12:]:
+            for sg in (1, -1):
+                yield case_line('ar.opnasg', a, sg, td_of_ns(d))
+            if d >= 0:
+                yield case_line('ar.stdasg', a, rng.choice([1, -1]), *std_args(d))
+                yield case_line('ar.zstdasg', dtz_of_ns(t, rng.choice(OFFSETS)), rng.choice([1, -1]), *std_args(d))
+        for off in OFF_ARGS + [(NS_MAX - t) // G, (NS_MAX - t) // G + 1, -((t - NS_MIN) // G), -((t - NS_MIN) // G) - 1]:
+            if -86400 < off < 86400:
+                for sg in (1, -1):
+                    yield case_line('ar.noff', a, sg, off)
+                    yield case_line('ar.opnoff', a, sg, off)
+                    yield case_line('ar.opzoff', dtz_of_ns(t, rng.choice(OFFSETS)), sg, off)
+    for t in anc[::9]:
+        for s_ in (TD_MAX // G, TD_MAX // G + 1, 2**63, U64_MAX):
+            for n in (0, 807000000, 807000001, G - 1):
+                yield case_line('ar.stdasg', ndt_of_ns(t), rng.choice([1, -1]), s_, n)
+                yield case_line('ar.zstdasg', dtz_of_ns(t, -3600), rng.choice([1, -1]), s_, n)
+    for x in anc[::3]:
+        for y in anc[::4]:
+            yield case_line('ar.opzdiffref', dtz_of_ns(x, rng.choice(OFFSETS)), dtz_of_ns(y, rng.choice(OFFSETS)))
+    tds = [0, 1, -1, DAYNS - 1, DAYNS, -DAYNS, -DAYNS + 1, 366 * DAYNS, -366 * DAYNS, 146097 * DAYNS, TD_MAX, TD_MIN]
+    for dn in dan[::3] + [DN_MIN, DN_MAX]:
+        extra = [(DN_MAX - dn) * DAYNS + e for e in (-1, 0, DAYNS - 1, DAYNS)] + [(DN_MIN - dn) * DAYNS + e for e in (-DAYNS, -DAYNS + 1, 0, 1)]
+        for x in tds + extra:
+            if TD_MIN <= x <= TD_MAX:
+                for sg in (1, -1):
+                    yield case_line('ar.opdasg', date_of_dn(dn), sg, td_of_ns(x))
+    # adaptors that run to the end: count / last, within ten years of the end in the driven direction
+    for j in list(range(0, 30)) + [35, 70, 71, 365, 366, 700, 3287]:
+        for start, dr in ((DN_MAX - j, 0), (DN_MIN + j, 1)):
+            for op in ('it.dcount', 'it.wcount', 'it.dlast', 'it.wlast'):
+                yield case_line(op, date_of_dn(start), dr)
+    yield case_line('it.dcount', [2021, 1], 0)       # outside the accepted window: bad args on both sides
+    # len (forward), rev(), step_by
+    for j in list(range(0, 26)) + [30, 100, 366, 1000, 7001]:
+        for start in (DN_MAX - j, DN_MIN + j):
+            for k in (0, 1, 2, 3, 10, 24, 25, 26, 101, 1001):
+                yield case_line('it.dlen', date_of_dn(start), k)
+                yield case_line('it.wlen', date_of_dn(start), k)
+            for k in (0, 1, 2, 5, 25, 26):
+                for dr in (0, 1):
+                    yield case_line('it.drev', date_of_dn(start), k, dr, 40)
+                    yield case_line('it.wrev', date_of_dn(start), k, dr, 12)
+            for st in (1, 2, 3, 7, 25, 26, 365, 5000):
+                for dr in (0, 1):
+                    yield case_line('it.dstep', date_of_dn(start), dr, st, 12)
+                    yield case_line('it.wstep', date_of_dn(start), dr, st, 6)
+    for dn in dan[::4]:
+        for k in (0, 1, 7, 400, 5000):
+            yield case_line('it.dlen', date_of_dn(dn), k)
+            yield case_line('it.wlen', date_of_dn(dn), k)
+        for st in (1, 2, 31, 366):
+            yield case_line('it.dstep', date_of_dn(dn), rng.choice([0, 1]), st, 5)
+            yield case_line('it.wstep', date_of_dn(dn), rng.choice([0, 1]), st, 5)
+        yield case_line('it.drev', date_of_dn(dn), rng.choice([0, 1, 9]), rng.choice([0, 1]), 3)
+        yield case_line('it.wrev', date_of_dn(dn), rng.choice([0, 1, 9]), rng.choice([0, 1]), 3)
+    yield case_line('it.dstep', [2021, 1], 0, 0, 3)    # step_by(0): bad args
+    # random
+    n = 12000 if tier == 'quick' else 400000
+    for _ in range(n):
+        r = rng.random()
+        if r < 0.25:
+            t = rand_ns(rng)
+            yield case_line('ar.opnasg', ndt_of_ns(t), rng.choice([1, -1]), td_of_ns(rand_dur(rng, t)))
+        elif r < 0.4:
+            t = rand_ns(rng)
+            x = abs(rand_dur(rng, t))
+            if rng.random() < 0.5:
+                yield case_line('ar.stdasg', ndt_of_ns(t), rng.choice([1, -1]), *std_args(x))
+            else:
+                yield case_line('ar.zstdasg', dtz_of_ns(t, rng.choice(OFFSETS)), rng.choice([1, -1]), *std_args(x))
+        elif r < 0.5:
+            dn = rand_dn(rng)
+            yield case_line('ar.opdasg', date_of_dn(dn), rng.choice([1, -1]), td_of_ns(rand_dur(rng, (dn - EPOCH_DN) * DAYNS)))
+        elif r < 0.75:
+            t = rand_ns(rng)
+            off = rng.choice(OFF_ARGS + [rng.randint(-86399, 86399)])
+            op = rng.choice(['ar.noff', 'ar.opnoff', 'ar.opzoff'])
+            a = dtz_of_ns(t, rng.choice(OFFSETS + [rng.randint(-86399, 86399)])) if op == 'ar.opzoff' else ndt_of_ns(t)
+            yield case_line(op, a, rng.choice([1, -1]), off)
+        elif r < 0.8:
+            yield case_line('ar.opzdiffref', dtz_of_ns(rand_ns(rng), rng.randint(-86399, 86399)), dtz_of_ns(rand_ns(rng), rng.randint(-86399, 86399)))
+        elif r < 0.88:
+            dr = rng.choice([0, 1])
+            start = DN_MAX - rng.randint(0, 3300) if dr == 0 else DN_MIN + rng.randint(0, 3300)
+            yield case_line(rng.choice(['it.dcount', 'it.wcount', 'it.dlast', 'it.wlast']), date_of_dn(start), dr)
+        else:
+            dn = rand_dn(rng)
+            op = rng.choice(['it.dlen', 'it.wlen', 'it.drev', 'it.wrev', 'it.dstep', 'it.wstep'])
+            if op in ('it.dlen', 'it.wlen'):
+                yield case_line(op, date_of_dn(dn), rng.choice([0, 1, rng.randint(0, 900)]))
+            elif op in ('it.drev', 'it.wrev'):
+                yield case_line(op, date_of_dn(dn), rng.choice([0, 1, 2, rng.randint(0, 60)]), rng.choice([0, 1]), rng.choice([0, 1, 5, 50]))
+            else:
+                yield case_line(op, date_of_dn(dn), rng.choice([0, 1]), rng.randint(1, 40), rng.randint(0, 8))
+
+
 def cases(tier, rng):
     anc = anchors()
     # ---- date-time +- duration, all anchors x all durations
@@ -323,6 +429,9 @@ def cases(tier, rng):
                 yield case_line('it.weeks', date_of_dn(dn), k, dr, 3)
                 yield case_line('it.dhint', date_of_dn(dn), k, dr)
                 yield case_line('it.whint', date_of_dn(dn), k, dr)
+    # ---- the rest of the operator surface: compound assignment, Duration on the assign forms,
+    # reference subtraction, FixedOffset operands; provided iterator adaptors
+    yield from surface_cases(tier, rng, anc, dan)
     # ---- leap-second operands (outside the property's domain: reported as drift only) and bad args
     for t in anc[::6]:
         a = ndt_of_ns(t - t % G, leap=True)
